@@ -412,7 +412,7 @@ func c12Series(c *core.Ctx, k *core.Case) {
 // identity, and the octets must be unchanged afterwards.
 func c12SharedInput(c *core.Ctx, k *core.Case) {
 	r := prng.New(uint64(k.I[0]))
-	g, iters := int(k.I[1]), int(k.I[2])
+	g, iters := int(k.I[1]), raceScale(int(k.I[2]))
 	mcc, mnc := digits(r, 3), digits(r, 2+r.Intn(2))
 	amf, tmsi := r.Uint32()&0xffffff, r.Uint32()
 	rid, msin := digits(r, 1+r.Intn(4)), digits(r, 5+r.Intn(6))
@@ -489,7 +489,7 @@ func init() {
 			"reference renderers/builders written from TS 24.501 9.11.3.4, TS 24.008 10.5.1.3 and TS 23.003 (AMF id = region 8 || set 10 || pointer 6)",
 			"hex text is lower case as the library emits it; upper-case input must convert to the same octets",
 		},
-		Oracles: map[string]func(*core.Ctx, *core.Case){"cold-concurrent": coldConcurrent, "plmn": c12Plmn, "plmn-one": c12PlmnOne, "amf": c12Amf, "guti": c12Guti, "suci": c12Suci, "nai": c12Nai, "pei": c12Pei, "invalid": c12Invalid, "ident-series": c12Series, "shared-input": c12SharedInput},
+		Oracles: map[string]func(*core.Ctx, *core.Case){"cold-entries": coldEntries, "cold-concurrent": coldConcurrent, "plmn": c12Plmn, "plmn-one": c12PlmnOne, "amf": c12Amf, "guti": c12Guti, "suci": c12Suci, "nai": c12Nai, "pei": c12Pei, "invalid": c12Invalid, "ident-series": c12Series, "shared-input": c12SharedInput},
 		Exhaustive: func(tier string) (bool, string) {
 			return true, "all PLMNs and all 2^24 AMF identifiers; TMSI, SUCI and PEI spaces sampled"
 		},
@@ -639,6 +639,7 @@ func init() {
 		for i := 0; i < nCold; i++ {
 			us = append(us, coldUnitN("nasConvert", i, 128, "getters", "getters", "ident"))
 		}
+		us = append(us, coldEntryUnits(tier, "nasConvert", "ident")...)
 		return us
 	}
 	core.Register(p)
